@@ -1,6 +1,7 @@
 (* Interp/Run.v — dispatcher: one case in, one observation out.
    case ::= (case ID FAMILY payload)   obs ::= (obs ID result) *)
 From Verif Require Import Base.Prelude Base.Str Interp.Sexp Interp.RunUnits Interp.RunSchema Interp.RunCodegen Interp.RunFunction.
+From Verif Require Interp.RunStep Interp.RunFootprint.
 Open Scope string_scope.
 
 Definition run_case (x : sexp) : sexp :=
@@ -11,6 +12,8 @@ Definition run_case (x : sexp) : sexp :=
         else if String.eqb fam "schema" then run_schema_case payload
         else if String.eqb fam "codegen" then run_codegen_case payload
         else if String.eqb fam "function" then run_function_case payload
+        else if String.eqb fam "c11steps" then Verif.Interp.RunStep.run_steps_case payload
+        else if String.eqb fam "c13foot" then Verif.Interp.RunFootprint.run_foot_case payload
         else bad "unknown family" in
       Ls [At "obs"; id; r]
   | _ => bad "not a case"
